@@ -158,6 +158,7 @@ def c12(ctx):
     prog = ctx.prog
     gates.gate_eval(ctx)
     gates.join_sib(ctx)
+    gates.join_shape(ctx)
     inv = inventory(prog)
     ctx.rule("PANIC(select)", PANIC_TEXT)
     entries = [prog.fn("msi::internal::query::Select::exec"), prog.fn("msi::internal::package::Package::<F>::select_rows")]
@@ -174,6 +175,7 @@ def c11(ctx):
     from .rules import streams
     prog = ctx.prog
     streams.run(ctx)
+    streams.name4(ctx)
     inv = inventory(prog)
     ctx.rule("PANIC(streams)", PANIC_TEXT)
     pat = re.compile(r"Package::<F>::(has_stream|streams|read_stream|write_stream|remove_stream|remove_digital_signature|has_digital_signature)$|"
@@ -222,6 +224,7 @@ def c01(ctx):
 def c10(ctx):
     from .rules import propset
     propset.run(ctx)
+    propset.summary_ids(ctx)
     n = panic_module(ctx, "PANIC(summary)", ("src/internal/propset.rs", "src/internal/summary.rs"),
                      lambda f: f.file in ("src/internal/summary.rs", "src/internal/propset.rs") and f.kind != "Closure",
                      "SummaryInfo::* and PropertySet::{read,write,set,..}")
@@ -253,6 +256,7 @@ def c02(ctx):
     schema.gate_opt(ctx)
     schema.ins1(ctx)
     from .rules import propset
+    propset.run(ctx)
     return ctx.finish(explanation="reader-side structure: cell widths, offset-binary constants, column-major nesting, reference-width threading, pool header bit and long-string escape, "
                       "type-word masks and the 1-byte integer quirk, optional catalog streams, repeated-key rejection. That decoded values equal a foreign generator's is not decided")
 
